@@ -225,6 +225,20 @@ func main() {
 		}
 		rep := walk.Walk(g, func() walk.Impl { return newValImpl(*seed, *scale, g.Meta) }, *keep)
 		writeJSON(*out, rep)
+	case "l1-drive":
+		fh, err := os.Create(*out)
+		if err != nil {
+			fmt.Fprintln(os.Stderr, err)
+			os.Exit(2)
+		}
+		st, err := l1.Drive(fh, *seed, *paths, *maxLen)
+		fh.Close()
+		if err != nil {
+			fmt.Fprintln(os.Stderr, err)
+			os.Exit(2)
+		}
+		bz, _ := json.Marshal(st)
+		fmt.Println(string(bz))
 	case "det-run":
 		g, err := walk.Load(*edges)
 		if err != nil {
@@ -315,7 +329,14 @@ func replayL1(path string) int {
 	conc := l1.NewConc(absx.Int(nb["seed"]), parseScale(absx.Str(nb["scale"])))
 	cfg := l1.DefaultRunCfg()
 	if m, ok := nb["meta"].(absx.M); ok {
-		l1.ApplyMeta(&cfg, conc, m)
+		if absx.Bool(m["driver"]) {
+			cfg = l1.DriveCfg()
+			if conc.Cap() < 100 {
+				cfg.Amt0 = 12
+			}
+		} else {
+			l1.ApplyMeta(&cfg, conc, m)
+		}
 	}
 	ch := l1.NewChain(conc, cfg)
 	for i, e := range absx.List(nb["path"]) {
